@@ -178,3 +178,232 @@ Definition commv (n : nat) (A : list vec) : Prop :=
   forall a b, In a A -> In b A -> sympf n a b = false.
 Definition vcomm (n : nat) (A : list vec) (v : vec) : Prop :=
   forall a, In a A -> sympf n a v = false.
+
+(* ---------- moving one generator to the front ---------------------------------------------------- *)
+Lemma move_indep n w pre post : indepv n (pre ++ w :: post) -> indepv n (w :: pre ++ post).
+Proof.
+  intros H sel Hlen Hz. destruct sel as [|s sel]; [discriminate|].
+  simpl in Hlen. injection Hlen as Hlen.
+  destruct (split_sel _ sel pre post Hlen) as [s1 [s2 [-> [H1 H2]]]].
+  assert (Hf : forallb negb (s1 ++ s :: s2) = true).
+  { apply H.
+    - rewrite !app_length; simpl; rewrite H1, H2; reflexivity.
+    - intros p Hp. rewrite linf_move by exact H1. apply Hz; exact Hp. }
+  rewrite forallb_app in Hf. simpl in Hf. simpl. rewrite forallb_app.
+  destruct (negb s), (forallb negb s1), (forallb negb s2); simpl in *; congruence.
+Qed.
+
+Lemma move_span n w pre post f : spanv n (w :: pre ++ post) f -> spanv n (pre ++ w :: post) f.
+Proof.
+  intros [sel [Hlen Hf]]. destruct sel as [|s sel]; [discriminate|].
+  simpl in Hlen. injection Hlen as Hlen.
+  destruct (split_sel _ sel pre post Hlen) as [s1 [s2 [-> [H1 H2]]]].
+  exists (s1 ++ s :: s2). split.
+  - rewrite !app_length; simpl; rewrite H1, H2; reflexivity.
+  - intros p Hp. rewrite linf_move by exact H1. apply Hf; exact Hp.
+Qed.
+
+Lemma move_comm n w pre post : commv n (pre ++ w :: post) -> commv n (w :: pre ++ post).
+Proof. intros H a b Ha Hb. apply H; apply (proj1 (in_move _ w pre post)); assumption. Qed.
+
+Lemma move_vcomm n w pre post v : vcomm n (pre ++ w :: post) v -> vcomm n (w :: pre ++ post) v.
+Proof. intros H a Ha. apply H; apply (proj1 (in_move _ w pre post)); assumption. Qed.
+
+(* ---------- adding multiples of the head generator to the others --------------------------------- *)
+Lemma red_indep n c w B : indepv n (w :: B) -> indepv n (w :: map (addw c w) B).
+Proof.
+  intros H sel Hlen Hz. destruct sel as [|s sel]; [discriminate|].
+  simpl in Hlen. injection Hlen as Hlen. rewrite map_length in Hlen.
+  pose (d := dot sel (map c B)).
+  assert (Hf : forallb negb (xorb s d :: sel) = true).
+  { apply H.
+    - simpl; f_equal; exact Hlen.
+    - intros p Hp. specialize (Hz p Hp). simpl in Hz. rewrite linf_addw in Hz. fold d in Hz.
+      simpl. revert Hz. destruct s, d, (w p), (linf sel B p); simpl; congruence. }
+  simpl in Hf. apply andb_true_iff in Hf as [Hs Hsel].
+  assert (Hd : d = false) by (apply dot_allfalse; exact Hsel).
+  simpl. rewrite Hsel. rewrite Hd in Hs. destruct s; simpl in *; congruence.
+Qed.
+
+Lemma red_span n c w B f : spanv n (w :: map (addw c w) B) f -> spanv n (w :: B) f.
+Proof.
+  intros [sel [Hlen Hf]]. destruct sel as [|s sel]; [discriminate|].
+  simpl in Hlen. injection Hlen as Hlen. rewrite map_length in Hlen.
+  pose (d := dot sel (map c B)).
+  exists (xorb s d :: sel). split; [simpl; f_equal; exact Hlen|].
+  intros p Hp. rewrite (Hf p Hp). simpl. rewrite linf_addw. fold d.
+  destruct s, d, (w p), (linf sel B p); reflexivity.
+Qed.
+
+Lemma comm_addw_l n c (w u b : vec) :
+  sympf n w b = false -> sympf n u b = false -> sympf n (addw c w u) b = false.
+Proof. intros H1 H2. unfold addw. rewrite sympf_add_l, H1, H2. destruct (c u); reflexivity. Qed.
+
+Lemma comm_addw_r n c (w u a : vec) :
+  sympf n a w = false -> sympf n a u = false -> sympf n a (addw c w u) = false.
+Proof. intros H1 H2. unfold addw. rewrite sympf_add_r, H1, H2. destruct (c u); reflexivity. Qed.
+
+Lemma red_comm n c w B : commv n (w :: B) -> commv n (w :: map (addw c w) B).
+Proof.
+  intros H a b Ha Hb. simpl in Ha, Hb.
+  assert (Hww : sympf n w w = false) by (apply H; left; reflexivity).
+  destruct Ha as [<-|Ha]; destruct Hb as [<-|Hb].
+  - exact Hww.
+  - apply in_map_iff in Hb as [u [<- Hu]]. apply comm_addw_r; [exact Hww|].
+    apply H; [left; reflexivity|right; exact Hu].
+  - apply in_map_iff in Ha as [u [<- Hu]]. apply comm_addw_l; [exact Hww|].
+    apply H; [right; exact Hu|left; reflexivity].
+  - apply in_map_iff in Ha as [u1 [<- Hu1]]. apply in_map_iff in Hb as [u2 [<- Hu2]].
+    apply comm_addw_l; apply comm_addw_r.
+    + exact Hww.
+    + apply H; [left; reflexivity|right; exact Hu2].
+    + apply H; [right; exact Hu1|left; reflexivity].
+    + apply H; right; assumption.
+Qed.
+
+Lemma red_vcomm n c w B v : vcomm n (w :: B) v -> vcomm n (w :: map (addw c w) B) v.
+Proof.
+  intros H a Ha. simpl in Ha. destruct Ha as [<-|Ha].
+  - apply H; left; reflexivity.
+  - apply in_map_iff in Ha as [u [<- Hu]]. apply comm_addw_l.
+    + apply H; left; reflexivity.
+    + apply H; right; exact Hu.
+Qed.
+
+Lemma pivot_reduce n p0 A w v :
+  In w A -> w p0 = true -> commv n A -> indepv n A -> vcomm n A v ->
+  exists B, length A = S (length B) /\ commv n (w :: B) /\ indepv n (w :: B) /\
+    vcomm n (w :: B) v /\
+    (forall u, In u B -> u p0 = false) /\
+    (forall f, spanv n (w :: B) f -> spanv n A f) /\
+    (forall q, (forall u, In u A -> u q = false) -> forall u, In u B -> u q = false).
+Proof.
+  intros Hin Hw Hc Hi Hv. apply in_split in Hin as [pre [post ->]].
+  pose (c := fun u : vec => u p0).
+  exists (map (addw c w) (pre ++ post)). repeat split.
+  - rewrite map_length, !app_length. simpl. lia.
+  - apply red_comm, move_comm, Hc.
+  - apply red_indep, move_indep, Hi.
+  - apply red_vcomm, move_vcomm, Hv.
+  - intros u Hu. apply in_map_iff in Hu as [u' [<- Hu']]. unfold addw, c. rewrite Hw.
+    destruct (u' p0); reflexivity.
+  - intros f Hf. apply move_span. apply red_span in Hf. exact Hf.
+  - intros q Hq u Hu. apply in_map_iff in Hu as [u' [<- Hu']]. unfold addw.
+    rewrite (Hq w), (Hq u').
+    + destruct (c u'); reflexivity.
+    + apply (proj1 (in_move _ w pre post)). right; exact Hu'.
+    + apply in_app_iff. right; left; reflexivity.
+Qed.
+
+(* replace the target v by v + (v p0) w *)
+Lemma norm_v n w B v p0 :
+  w p0 = true -> commv n (w :: B) -> vcomm n (w :: B) v ->
+  exists v1 : vec, v1 p0 = false /\ vcomm n (w :: B) v1 /\
+    (forall q, w q = false -> v1 q = v q) /\
+    (spanv n (w :: B) v1 -> spanv n (w :: B) v).
+Proof.
+  intros Hw Hc Hv. exists (addw (fun u : vec => u p0) w v). repeat split.
+  - unfold addw. rewrite Hw. destruct (v p0); reflexivity.
+  - intros a Ha. apply comm_addw_r; [apply Hc; [exact Ha|left; reflexivity]|apply Hv; exact Ha].
+  - intros q Hq. unfold addw. rewrite Hq, andb_false_r. destruct (v q); reflexivity.
+  - intros [sel [Hlen Hf]]. destruct sel as [|s sel]; [discriminate|].
+    exists (xorb s (v p0) :: sel). split; [exact Hlen|].
+    intros p Hp. specialize (Hf p Hp). unfold addw in Hf. simpl in Hf. simpl.
+    revert Hf. destruct s, (v p0), (w p), (v p), (linf sel B p); simpl; congruence.
+Qed.
+
+(* ---------- removing qubit 0 --------------------------------------------------------------------- *)
+Lemma zero_from_tail n (y : vec) :
+  y X0 = false -> y Z0 = false -> (forall p, snd p < n -> tlv y p = false) ->
+  forall p, snd p < S n -> y p = false.
+Proof.
+  intros Hx Hz Ht [k [|i]] Hp.
+  - destruct k; assumption.
+  - apply (Ht (k, i)). simpl in *. lia.
+Qed.
+
+Lemma key_z0 n (a y : vec) :
+  a X0 = true -> y X0 = false -> (forall p, snd p < n -> tlv y p = false) ->
+  sympf (S n) a y = false -> y Z0 = false.
+Proof.
+  intros Ha Hy Ht Hs. simpl in Hs. rewrite Ha, Hy in Hs.
+  rewrite (sympf_ext_r n (tlv a) (tlv y) (fun _ => false)) in Hs by exact Ht.
+  rewrite sympf_zero_r in Hs. destruct (y Z0), (a Z0); simpl in Hs; congruence.
+Qed.
+
+Lemma x0_from_Z n (v Z : vec) :
+  Z X0 = false -> Z Z0 = true -> (forall p, snd p < n -> tlv Z p = false) ->
+  sympf (S n) v Z = false -> v X0 = false.
+Proof.
+  intros Hx Hz Ht Hs. simpl in Hs. rewrite Hx, Hz in Hs.
+  rewrite (sympf_ext_r n (tlv v) (tlv Z) (fun _ => false)) in Hs by exact Ht.
+  rewrite sympf_zero_r in Hs. destruct (v X0), (v Z0); simpl in Hs; congruence.
+Qed.
+
+Lemma tail_indep n w B :
+  indepv (S n) (w :: B) ->
+  (forall sel, length sel = length B ->
+     (forall p, snd p < n -> linf sel (map tlv B) p = false) ->
+     forall p, snd p < S n -> linf sel B p = false) ->
+  indepv n (map tlv B).
+Proof.
+  intros Hi Hz sel Hlen Ht. rewrite map_length in Hlen.
+  assert (Hf : forallb negb (false :: sel) = true).
+  { apply Hi.
+    - simpl; f_equal; exact Hlen.
+    - intros p Hp. simpl. rewrite (Hz sel Hlen Ht p Hp). reflexivity. }
+  exact Hf.
+Qed.
+
+Lemma tail_comm n B :
+  (forall u, In u B -> u X0 = false) -> commv (S n) B -> commv n (map tlv B).
+Proof.
+  intros HB Hc a b Ha Hb.
+  apply in_map_iff in Ha as [u1 [<- Hu1]]. apply in_map_iff in Hb as [u2 [<- Hu2]].
+  rewrite <- sympf_tl by (apply HB; assumption). apply Hc; assumption.
+Qed.
+
+Lemma tail_vcomm n B v :
+  (forall u, In u B -> u X0 = false) -> v X0 = false -> vcomm (S n) B v ->
+  vcomm n (map tlv B) (tlv v).
+Proof.
+  intros HB Hv Hc a Ha. apply in_map_iff in Ha as [u [<- Hu]].
+  rewrite <- sympf_tl; [apply Hc; exact Hu|apply HB; exact Hu|exact Hv].
+Qed.
+
+Definition P (n : nat) : Prop :=
+  forall A v, length A = n -> commv n A -> indepv n A -> vcomm n A v -> spanv n A v.
+
+Lemma comm_tail_of_cons n w B : commv n (w :: B) -> commv n B.
+Proof. intros H a b Ha Hb. apply H; right; assumption. Qed.
+Lemma vcomm_tail_of_cons n w B v : vcomm n (w :: B) v -> vcomm n B v.
+Proof. intros H a Ha. apply H; right; assumption. Qed.
+
+(* Case A: the head generator has an X on qubit 0, nobody else has *)
+Lemma caseA n (IH : P n) w B v :
+  length B = n -> w X0 = true -> (forall u, In u B -> u X0 = false) -> v X0 = false ->
+  commv (S n) (w :: B) -> indepv (S n) (w :: B) -> vcomm (S n) (w :: B) v ->
+  spanv (S n) (w :: B) v.
+Proof.
+  intros Hlen Hw HB Hv Hc Hi Hvc.
+  assert (HzA : forall y : vec, y X0 = false -> (forall p, snd p < n -> tlv y p = false) ->
+                 sympf (S n) w y = false -> forall p, snd p < S n -> y p = false).
+  { intros y Hy Ht Hs. apply zero_from_tail; [exact Hy| |exact Ht].
+    apply (key_z0 n w y Hw Hy Ht Hs). }
+  assert (HiT : indepv n (map tlv B)).
+  { apply (tail_indep n w B Hi). intros sel Hl Ht. apply HzA.
+    - apply linf_zero_col. exact HB.
+    - intros p Hp. unfold tlv. rewrite <- linf_tlv. apply Ht; exact Hp.
+    - apply sympf_lin_zero_r. intros u Hu. apply Hc; [left; reflexivity|right; exact Hu]. }
+  destruct (IH (map tlv B) (tlv v)) as [sel [Hl Hf]].
+  - rewrite map_length; exact Hlen.
+  - apply tail_comm; [exact HB|apply (comm_tail_of_cons _ _ _ Hc)].
+  - exact HiT.
+  - apply tail_vcomm; [exact HB|exact Hv|apply (vcomm_tail_of_cons _ _ _ _ Hvc)].
+  - rewrite map_length in Hl. exists (false :: sel). split; [simpl; f_equal; exact Hl|].
+    intros p Hp. simpl.
+    pose (y := fun p : bool * nat => xorb (true && v p) (linf sel B p)).
+    assert (Hy : y p = false).
+    { apply HzA; [| |apply sympf_lin_zero_r_placeholder|exact Hp]. }
+    revert Hy. unfold y. destruct (v p), (linf sel B p); simpl; congruence.
+Qed.
